@@ -41,7 +41,7 @@ Definition compile_args (G : genv) (ce : cenv) : list expr -> pool -> option (li
                 | None => None end
     end.
 
-Time Lemma compile_call_eq G ce f args p :
+Lemma compile_call_eq G ce f args p :
   compile_expr G ce (ECall f args) p =
   match compile_args G ce args p with
   | Some (cargs, p1) =>
@@ -76,7 +76,7 @@ Definition for_fetch (n0 : nat) : list instr :=
 Definition for_incr (n0 : nat) : list instr :=
   [mk OP_LOAD_LOCAL [N.of_nat (n0 + 4)]; mk OP_PUSH_I64 [i64 1]; mk OP_ADD []; mk OP_STORE_LOCAL [N.of_nat (n0 + 4)]].
 
-Time Lemma compile_for_eq G pos L ce x lo hi body p :
+Lemma compile_for_eq G pos L ce x lo hi body p :
   compile_stmt G pos L ce (SFor x lo hi body) p =
   match compile_expr G ce lo p with
   | Some (clo, p1) =>
@@ -103,85 +103,85 @@ Proof.
   cbn [compile_stmt]. destruct (compile_expr G ce lo p) as [[clo p1]|]; [|reflexivity].
   destruct (compile_expr G ce hi p1) as [[chi p2]|]; [|reflexivity].
   unfold for_pre, rng_loop, rng_init, for_setup. rewrite <- !app_assoc. reflexivity.
-Time Qed.
+Qed.
 
-Time Lemma for_sizes n0 : csize (for_test n0) = 7 /\ csize (for_fetch n0) = 10 /\ csize (for_incr n0) = 16 /\
+Lemma for_sizes n0 : csize (for_test n0) = 7 /\ csize (for_fetch n0) = 10 /\ csize (for_incr n0) = 16 /\
   csize (rng_body n0) = 26 /\ csize (rng_test n0) = 7 /\ csize (rng_init n0) = 11 /\ csize (for_setup n0) = 22 /\
   csize (rng_loop n0) = 46.
 Proof. repeat split; reflexivity. Qed.
 
 (* ---------- lookups ---------- *)
-Time Lemma cfind_from_snoc x l y : forall i acc,
+Lemma cfind_from_snoc x l y : forall i acc,
   cfind_from x (l ++ [y]) i acc = if N.eqb x y then Some (i + length l) else cfind_from x l i acc.
 Proof.
   induction l as [|z l IH]; intros i acc; cbn [app cfind_from length].
   - rewrite Nat.add_0_r. destruct (N.eqb x y); reflexivity.
   - rewrite IH. replace (S i + length l) with (i + S (length l)) by lia. reflexivity.
-Time Qed.
-Time Lemma cfind_snoc x l y : cfind x (l ++ [y]) = if N.eqb x y then Some (length l) else cfind x l.
+Qed.
+Lemma cfind_snoc x l y : cfind x (l ++ [y]) = if N.eqb x y then Some (length l) else cfind x l.
 Proof. unfold cfind. rewrite cfind_from_snoc. reflexivity. Qed.
-Time Lemma cfind_nil x : cfind x [] = None.
+Lemma cfind_nil x : cfind x [] = None.
 Proof. reflexivity. Qed.
 
-Time Lemma cfind_lt x l k : cfind x l = Some k -> k < length l.
+Lemma cfind_lt x l k : cfind x l = Some k -> k < length l.
 Proof.
   revert k. induction l as [|y l IH] using rev_ind; intros k H; [discriminate|].
   rewrite cfind_snoc in H. rewrite app_length. cbn [length].
   destruct (N.eqb x y); [inversion H; lia|]. specialize (IH k H). lia.
-Time Qed.
+Qed.
 
-Time Lemma index_of_lt x l : forall i k, index_of x l i = Some k -> i <= k < i + length l.
+Lemma index_of_lt x l : forall i k, index_of x l i = Some k -> i <= k < i + length l.
 Proof.
   induction l as [|y l IH]; intros i k H; cbn [index_of length] in *; [discriminate|].
   destruct (N.eqb x y); [inversion H; lia|]. specialize (IH _ _ H). lia.
-Time Qed.
+Qed.
 
-Time Lemma index_of_nth x l : forall i k, index_of x l i = Some k -> nth_error l (k - i) = Some x.
+Lemma index_of_nth x l : forall i k, index_of x l i = Some k -> nth_error l (k - i) = Some x.
 Proof.
   induction l as [|y l IH]; intros i k H; cbn [index_of] in *; [discriminate|].
   destruct (N.eqb_spec x y).
   - inversion H; subst. rewrite Nat.sub_diag. reflexivity.
   - pose proof (index_of_lt _ _ _ _ H). specialize (IH _ _ H).
     replace (k - i) with (S (k - S i)) by lia. exact IH.
-Time Qed.
+Qed.
 
 (* ---------- string pool ---------- *)
-Time Lemma list_N_eqb_eq a : forall b, list_N_eqb a b = true -> a = b.
+Lemma list_N_eqb_eq a : forall b, list_N_eqb a b = true -> a = b.
 Proof.
   induction a as [|x a IH]; intros [|y b] H; cbn [list_N_eqb] in H; try discriminate; [reflexivity|].
   apply andb_true_iff in H. destruct H as [H1 H2]. apply N.eqb_eq in H1. f_equal; auto.
-Time Qed.
-Time Lemma list_N_eqb_refl a : list_N_eqb a a = true.
+Qed.
+Lemma list_N_eqb_refl a : list_N_eqb a a = true.
 Proof. induction a as [|x a IH]; [reflexivity|]. cbn [list_N_eqb]. rewrite N.eqb_refl. exact IH. Qed.
 
-Time Lemma pool_find_spec s p : forall i k, pool_find s p i = Some k -> i <= k /\ nth_error p (k - i) = Some s.
+Lemma pool_find_spec s p : forall i k, pool_find s p i = Some k -> i <= k /\ nth_error p (k - i) = Some s.
 Proof.
   induction p as [|t p IH]; intros i k H; cbn [pool_find] in H; [discriminate|].
   destruct (list_N_eqb s t) eqn:E.
   - inversion H; subst. rewrite Nat.sub_diag. apply list_N_eqb_eq in E. subst. split; [lia|reflexivity].
   - destruct (IH _ _ H) as [H1 H2]. split; [lia|]. replace (k - i) with (S (k - S i)) by lia. exact H2.
-Time Qed.
+Qed.
 
 Definition pool_le (p q : pool) : Prop := exists t, q = p ++ t.
-Time Lemma pool_le_refl p : pool_le p p.
+Lemma pool_le_refl p : pool_le p p.
 Proof. exists []. rewrite app_nil_r. reflexivity. Qed.
-Time Lemma pool_le_trans p q r : pool_le p q -> pool_le q r -> pool_le p r.
+Lemma pool_le_trans p q r : pool_le p q -> pool_le q r -> pool_le p r.
 Proof. intros [t ->] [u ->]. exists (t ++ u). rewrite app_assoc. reflexivity. Qed.
-Time Lemma pool_le_length p q : pool_le p q -> length p <= length q.
+Lemma pool_le_length p q : pool_le p q -> length p <= length q.
 Proof. intros [t ->]. rewrite app_length. lia. Qed.
-Time Lemma pool_le_nth p q i s : pool_le p q -> nth_error p i = Some s -> nth_error q i = Some s.
+Lemma pool_le_nth p q i s : pool_le p q -> nth_error p i = Some s -> nth_error q i = Some s.
 Proof.
   intros [t ->] H. rewrite nth_error_app1; [exact H|]. apply nth_error_Some. rewrite H. discriminate.
-Time Qed.
+Qed.
 
-Time Lemma pool_add_spec s p i p' : pool_add s p = (i, p') -> pool_le p p' /\ nth_error p' i = Some s.
+Lemma pool_add_spec s p i p' : pool_add s p = (i, p') -> pool_le p p' /\ nth_error p' i = Some s.
 Proof.
   unfold pool_add. destruct (pool_find s p 0) as [k|] eqn:E; intros H; inversion H; subst; clear H.
   - split; [apply pool_le_refl|]. destruct (pool_find_spec _ _ _ _ E) as [_ H]. rewrite Nat.sub_0_r in H. exact H.
   - split; [exists [s]; reflexivity|]. rewrite nth_error_app2, Nat.sub_diag by lia. reflexivity.
-Time Qed.
+Qed.
 
-Time Lemma compile_expr_pool G ce e : forall p c p', compile_expr G ce e p = Some (c, p') -> pool_le p p'.
+Lemma compile_expr_pool G ce e : forall p c p', compile_expr G ce e p = Some (c, p') -> pool_le p p'.
 Proof.
   induction e as [z|b|s|x|o a IHa|o a b IHa IHb|f args IHargs|c0 a b IHc IHa IHb] using expr_ind2;
     intros p c p' H.
@@ -209,34 +209,34 @@ Proof.
     destruct (compile_expr G ce a p1) as [[ca p2]|] eqn:Ea; [|discriminate].
     destruct (compile_expr G ce b p2) as [[cb p3]|] eqn:Eb; [|discriminate].
     inversion H; subst. eapply pool_le_trans; [eauto|]. eapply pool_le_trans; eauto.
-Time Qed.
+Qed.
 
-Time Lemma compile_args_pool G ce args : forall p c p', compile_args G ce args p = Some (c, p') -> pool_le p p'.
+Lemma compile_args_pool G ce args : forall p c p', compile_args G ce args p = Some (c, p') -> pool_le p p'.
 Proof.
   induction args as [|a r IH]; intros p c p' H; cbn [compile_args] in H.
   - inversion H. apply pool_le_refl.
   - destruct (compile_expr G ce a p) as [[ca q1]|] eqn:E1; [|discriminate].
     destruct (compile_args G ce r q1) as [[cr q2]|] eqn:E2; [|discriminate]. inversion H; subst.
     eapply pool_le_trans; [eapply compile_expr_pool; eauto|eapply IH; eauto].
-Time Qed.
+Qed.
 
 (* ---------- hide_from ---------- *)
-Time Lemma hide_from_app a b : hide_from (length a) (a ++ b) = a ++ repeat HIDDEN (length b).
+Lemma hide_from_app a b : hide_from (length a) (a ++ b) = a ++ repeat HIDDEN (length b).
 Proof.
   unfold hide_from. rewrite firstn_app, firstn_all, Nat.sub_diag, app_length. cbn [firstn]. rewrite app_nil_r.
   f_equal. f_equal. lia.
-Time Qed.
-Time Lemma hide_from_length n ce : length (hide_from n ce) = length ce.
+Qed.
+Lemma hide_from_length n ce : length (hide_from n ce) = length ce.
 Proof. unfold hide_from. rewrite app_length, firstn_length, repeat_length. lia. Qed.
 
 (* match on "is the else branch absent" as a boolean *)
 Definition is_skip (s : stmt) : bool := match s with SSkip => true | _ => false end.
-Time Lemma skip_match {A} (s : stmt) (x y : A) :
+Lemma skip_match {A} (s : stmt) (x y : A) :
   match s with SSkip => x | _ => y end = if is_skip s then x else y.
 Proof. destruct s; reflexivity. Qed.
 
 (* ---------- the scope and the pool only grow ---------- *)
-Time Lemma compile_stmt_ext G s : forall pos L ce p c ce' p',
+Lemma compile_stmt_ext G s : forall pos L ce p c ce' p',
   compile_stmt G pos L ce s p = Some (c, ce', p') -> (exists ext, ce' = ce ++ ext) /\ pool_le p p'.
 Proof.
   induction s as [ |s1 IH1 s2 IH2|m x t e|x e|c0 s1 IH1 s2 IH2|c0 body IHb|x lo hi body IHb| | |[e|]|nl e|e|e];
@@ -303,4 +303,4 @@ Proof.
     split; [exists []; rewrite app_nil_r; reflexivity|eapply compile_expr_pool; eauto].
   - destruct (compile_expr G ce e p) as [[c1 p1]|] eqn:E1; [|discriminate]. inversion H; subst.
     split; [exists []; rewrite app_nil_r; reflexivity|eapply compile_expr_pool; eauto].
-Time Qed.
+Qed.
